@@ -66,7 +66,7 @@ type c12Case struct {
 	Seq  []int  `json:"symbols"`
 	Site string `json:"site,omitempty"`
 	Perm []int  `json:"iteration_order,omitempty"`
-	Lazy int    `json:"lazy_mask,omitempty"` // processors: bit i = participant i is LazyInit
+	Lazy int    `json:"lazy_mask,omitempty"`              // processors: bit i = participant i is LazyInit
 	Late bool   `json:"order_known_after_init,omitempty"` // runners: Order() answers 0 until the runner's Init ran
 }
 
